@@ -207,7 +207,7 @@ func vmFsmReplay(dir string, useProto bool, entries []*vfEntry, snapAfter int, t
 	defer w.close()
 	for i := range entries {
 		if snapAfter >= 0 && i == snapAfter {
-			if r := w.snapshot(t, 0); !strings.Contains(r, ":ok:") {
+			if r := w.snapshot(t, 0, 0); !strings.Contains(r, ":ok:") {
 				return res, fmt.Errorf("snapshot: %s", r)
 			}
 			if r := w.restart(); r != "X:snap" {
